@@ -1,6 +1,9 @@
 #!/bin/bash
 # try_seed.sh <property> <patch.diff> [tier]: applies a seeded change to /repo, runs the check, reverts.
+# The evidence file of the property is put back afterwards: evidence must come from the unchanged tree.
 P=$1; PATCHF=$2; TIER=${3:-quick}
+cp /verif/evidence/$P.json /tmp/evidence-$P.keep 2>/dev/null
 cd /repo && git apply $PATCHF || { echo "patch does not apply"; exit 2; }
 cd /verif && ./bin/vcheck $P $TIER 2>&1 | tail -4; echo "rc=${PIPESTATUS[0]}"
 git -C /repo checkout -- . ; find /verif/replays -name "$P-*.json" -newer $PATCHF -delete
+[ -f /tmp/evidence-$P.keep ] && mv /tmp/evidence-$P.keep /verif/evidence/$P.json
